@@ -1,7 +1,7 @@
 (* C15 — deciding obligations (statements only). *)
 From Coq Require Import ZArith List Bool.
 From VF Require Import Base.RingOps Base.Mat Base.Tensor Base.Harness Base.K8 Gates.Families Sim.Ref
-  Xform.KakCanon Xform.KakCanonProofs Xform.KakCount Xform.KakCountProofs.
+  Xform.KakCanon Xform.KakCanonProofs Xform.KakCount Xform.KakCountProofs Xform.KakStruct Xform.KakStructProofs.
 Import ListNotations.
 
 (* kak_canonicalize_vector reaches the canonical Weyl chamber for EVERY input (any rational multiple of pi/4:
@@ -139,3 +139,38 @@ Theorem C15_gamma_left_local_trace : forall K (O : Ops K), Laws O -> forall u a1
   trace4 O (gamma_m O (mmul O (kron O a1 a0) u)) = kmul O (kmul O (det2 O a1) (det2 O a0)) (trace4 O (gamma_m O u)).
 Proof. exact @gamma_left_local_trace. Qed.
 Print Assumptions C15_gamma_left_local_trace.
+
+(* ---- structured inputs (Xform/KakStruct.v) ---- *)
+(* two_qubit_matrix_to_cz_isometry: with the first qubit in |0>, D = diag(a, b, c, d) applied before any circuit acts on the columns
+   |00>, |01> as I (x) diag(a, b); the other half diag(a, c) agrees only when b = c (generic inputs), and differs on mat = I (x) Z *)
+Theorem C15_iso_restrict_sound : forall K (O : Ops K), Laws O -> forall (m : matrix (K:=K)) a b c d, is44 m ->
+  first_cols2 (mmul O m (diag4 O a b c d)) = first_cols2 (mmul O m (iso_restrict O a b c d)).
+Proof. exact @iso_restrict_sound. Qed.
+Print Assumptions C15_iso_restrict_sound.
+Theorem C15_iso_other_half_symmetric : forall K (O : Ops K), Laws O -> forall (m : matrix (K:=K)) a b d, is44 m ->
+  first_cols2 (mmul O m (diag4 O a b b d)) = first_cols2 (mmul O m (iso_restrict_other_half O a b b d)).
+Proof. exact @iso_other_half_symmetric. Qed.
+Print Assumptions C15_iso_other_half_symmetric.
+Example C15_iso_hypothesis_satisfiable : is44 (mid K8Ops 4).
+Proof. repeat eexists; reflexivity. Qed.
+Example C15_iso_other_half_refuted :
+  let m1 := kopp K8Ops (k1 K8Ops) in
+  meqb k8_eqb (first_cols2 (mmul K8Ops (mid K8Ops 4) (diag4 K8Ops (k1 K8Ops) m1 (k1 K8Ops) m1)))
+              (first_cols2 (mmul K8Ops (mid K8Ops 4) (iso_restrict_other_half K8Ops (k1 K8Ops) m1 (k1 K8Ops) m1))) = false
+  /\ meqb k8_eqb (first_cols2 (mmul K8Ops (mid K8Ops 4) (diag4 K8Ops (k1 K8Ops) m1 (k1 K8Ops) m1)))
+                 (first_cols2 (mmul K8Ops (mid K8Ops 4) (iso_restrict K8Ops (k1 K8Ops) m1 (k1 K8Ops) m1))) = true.
+Proof. exact iso_other_half_refuted. Qed.
+(* the known-gate dispatch at exponent -1: SWAP**-1 is SWAP; ISWAP**-1 is the inverse of ISWAP and no phase multiple of it *)
+Theorem C15_swap_pow_m1_is_swap : forall K (O : Ops K), Laws O -> swap_pow_m1 O = swap_pow_1 O.
+Proof. exact @swap_pow_m1_is_swap. Qed.
+Print Assumptions C15_swap_pow_m1_is_swap.
+Theorem C15_iswap_pow_m1_inverse : forall K (O : Ops K), Laws O -> mmul O (iswap_pow_1 O) (iswap_pow_m1 O) = mid O 4.
+Proof. exact @iswap_pow_m1_inverse. Qed.
+Print Assumptions C15_iswap_pow_m1_inverse.
+Theorem C15_iswap_pow_1_square : forall K (O : Ops K), Laws O ->
+  mmul O (iswap_pow_1 O) (iswap_pow_1 O) = diag4 O (k1 O) (kopp O (k1 O)) (kopp O (k1 O)) (k1 O).
+Proof. exact @iswap_pow_1_square. Qed.
+Print Assumptions C15_iswap_pow_1_square.
+Theorem C15_iswap_pow_m1_not_iswap_up_to_phase : forall g : K8, mscale K8Ops g (iswap_pow_1 K8Ops) <> iswap_pow_m1 K8Ops.
+Proof. exact iswap_pow_m1_not_iswap_up_to_phase. Qed.
+Print Assumptions C15_iswap_pow_m1_not_iswap_up_to_phase.
